@@ -5,7 +5,8 @@
    PointIsotherm.pressure() / loading() / loading_at() on real isotherms by tools/props/c15.py on every run. *)
 From Coq Require Import Reals Lra QArith ZArith String List Bool.
 From PG Require Import Lib.Num Lib.Py Gen.UnitsGen1 Units.AdsOracle Gen.UnitsGen2 Units.UnitsSpec Units.C01Theorems
-  Charact.Acquire Gen.AcquireGen Charact.PsdMeso Charact.PsdScale Charact.HkLib Gen.HkGen Charact.HkScale Gen.CharactGen Charact.Window Charact.ListAux Charact.BetLang Charact.BetScale Charact.OlsScale Charact.Invariance.
+  Charact.Acquire Gen.AcquireGen Charact.PsdMeso Charact.PsdScale Charact.HkLib Gen.HkGen Charact.HkScale Gen.CharactGen Charact.Window Charact.ListAux Charact.BetLang Charact.BetScale Charact.OlsScale Charact.Invariance
+  Registry.Backend Gen.AdsMethodsGen Registry.AdsMethods Charact.InvKinds.
 Import ListNotations.
 Open Scope string_scope.
 Open Scope R_scope.
@@ -30,6 +31,29 @@ Theorem loading_at_argument_invariant : forall (a : adsorbate RNum) T psat, a_ps
   arg_pressure RNum (p_mode r) (p_unit r) a (Some T) p (p_mode rt) (p_unit rt) = Ok (spec_conv (p_canon psat rt) (p_canon psat r) p).
 Proof. exact loading_at_argument_invariant. Qed.
 Print Assumptions loading_at_argument_invariant.
+
+(* adsorbate KINDS: the record `a` above instantiated with the adsorbate built from the GENERATED property methods of Adsorbate
+   (Gen/AdsMethodsGen.v, from the bodies in adsorbate.py) - a backend that answers (whatever is stored beside it), no backend + stored
+   property, a backend failing at the isotherm temperature + stored property: the converter receives the pascal value divided ONCE by the
+   unit, and the named reads are invariant for every kind *)
+Theorem saturation_pressure_unit_by_kind : forall (b : backend RNum) (props : list (string * R)) T psat (u : punit),
+  psat_source b props T psat -> saturation_pressure RNum b props T (Some (punit_name u)) true = Ok (psat / pa_per u).
+Proof. exact saturation_pressure_unit_by_kind. Qed.
+Print Assumptions saturation_pressure_unit_by_kind.
+Theorem converter_reads_generated_method : forall (b : backend RNum) (props : list (string * R)) T u,
+  ads_saturation_pressure (ads_of b props) (Some T) u = saturation_pressure RNum b props T u true.
+Proof. exact converter_reads_generated_method. Qed.
+Print Assumptions converter_reads_generated_method.
+Theorem acquire_invariant_pressure_by_kind : forall (b : backend RNum) (props : list (string * R)) T psat,
+  psat_source b props T psat -> 0 < psat -> T <> 0 -> forall (P : list R) (r rt : prep),
+  acc_pressure RNum (p_mode r) (p_unit r) (ads_of b props) (Some T) (stored_p psat r P) (p_mode rt) (p_unit rt) = Ok (stored_p psat rt P).
+Proof. exact acquire_invariant_pressure_by_kind. Qed.
+Print Assumptions acquire_invariant_pressure_by_kind.
+Theorem loading_at_argument_invariant_by_kind : forall (b : backend RNum) (props : list (string * R)) T psat,
+  psat_source b props T psat -> 0 < psat -> T <> 0 -> forall p (r rt : prep),
+  arg_pressure RNum (p_mode r) (p_unit r) (ads_of b props) (Some T) p (p_mode rt) (p_unit rt) = Ok (spec_conv (p_canon psat rt) (p_canon psat r) p).
+Proof. exact loading_at_argument_invariant_by_kind. Qed.
+Print Assumptions loading_at_argument_invariant_by_kind.
 
 (* the generated acquisition table: every read of area_BET, area_langmuir, t_plot, dr_plot, da_plot, psd_mesoporous,
    psd_microporous and of alpha_s on the sample names its representation, hence is invariant *)
@@ -170,6 +194,11 @@ Example invariance_hypotheses_satisfiable :
   exists (a : adsorbate RNum), a_psat_Pa a (Some 77.355) = Some 101325 /\ ads_at a (Some 77.355) 28.0134 0.0288 0.000165
     /\ 0 < 101325 /\ 77.355 <> 0 /\ 0 < 28.0134 /\ 0 < 0.0288 /\ 0 < 0.000165.
 Proof. exact invariance_hypotheses_satisfiable. Qed.
+Example adsorbate_kinds_satisfiable :
+  (exists b : backend RNum, psat_source b [("saturation_pressure", 98000)] 77 101325)
+  /\ psat_source no_backend [("saturation_pressure", 98000)] 90 98000
+  /\ (exists b : backend RNum, b "molar_mass" (@NoInput RNum) = Some 0.028 /\ psat_source b [("saturation_pressure", 98000)] 150 98000).
+Proof. exact kinds_satisfiable. Qed.
 Example psd_scale_hypotheses_satisfiable :
   (exists r, psd_pygapsdh RNum [1; 2; 4] [0; 0; 0] [1; 2; 3] "sphere" = Ok r) /\
   (exists r, psd_bjh RNum [1; 2; 4] [0; 0; 0] [1; 2; 3] "cylinder" = Ok r) /\
